@@ -94,7 +94,9 @@ def run_job(cpath, job, outdir, tier='quick'):
     if dfcc:
         cmd = ['goto-instrument', '--dfcc', entry]
         if job.get('enforce'): cmd += ['--enforce-contract', job['enforce']]
-        for r in [x for x in job.get('replace', '').split(',') if x]: cmd += ['--replace-call-with-contract', r]
+        ctext = open(cpath).read()
+        for r in [x for x in job.get('replace', '').split(',') if x]:
+            if re.search(r'\b' + re.escape(r) + r'\(', ctext): cmd += ['--replace-call-with-contract', r]   # callees absent from this unit are skipped
         if job.get('loops', '1') != '0': cmd += ['--apply-loop-contracts']
         cmd += [gb1, gb2]
         rc, out, dt = sh(cmd, 600, log); res['cmds'].append(' '.join(cmd)); res['seconds'] += dt
